@@ -191,7 +191,8 @@ def check(ctx):
            "relative_se3(p1, p2) = inverse(p1) . p2" if ok else
            f"relative_se3 = {fmt(ret)}", key="C09.2:relative_se3")
     p = tm.param("p")
-    ret = run("se3_inverse").ret
+    from ..lib import strip_copies
+    ret = strip_copies(run("se3_inverse").ret)
     ok = False
     if is_call_to(ret, L + "se3") and len(ret.args[1]) == 2:
         ri, ti = ret.args[1]
@@ -204,7 +205,8 @@ def check(ctx):
            "se3_inverse(p) = se3(R^T, -R^T t) of p's own blocks" if ok else
            f"se3_inverse = {fmt(ret)}", key="C09.2:se3_inverse")
     a = tm.param("a")
-    ret = run("sim3_inverse").ret
+    from ..lib import strip_copies
+    ret = strip_copies(run("sim3_inverse").ret)
     ok = False
     if is_call_to(ret, L + "sim3") and len(ret.args[1]) == 3:
         ri, ti, si = ret.args[1]
